@@ -976,6 +976,7 @@ def sig_op(op, err):
     that cannot have one) -- the route up to that getter"""
     via = op.get("via") or ""
     local = err[1].split("/@")[0].split(":")[-1]
+    local = {"bgPr": "background", "bg": "background", "bgRef": "background"}.get(local, local)
     segs = via.split(".")
     if local in segs:
         return ".".join(segs[: segs.index(local) + 1])
